@@ -46,6 +46,13 @@ ORDER_LAWS = [z3.ForAll([_p, _q, _r], z3.Implies(z3.And(DOMAIN(_p), DOMAIN(_q), 
               for _, f in laws(LT, EQ, _p, _q, _r)]
 
 
+CORE = {'irreflexive', 'asymmetric', 'transitive', 'total: lt or eq or gt', 'lt excludes eq', 'eq reflexive', 'eq symmetric',
+        'eq transitive', 'lt respects eq on the right', 'lt respects eq on the left', 'None sorts first', 'None equals None only'}
+# the order-theoretic core (no class-specific facts): enough for merge-loop reasoning, much lighter for the solver
+ORDER_LAWS_CORE = [z3.ForAll([_p, _q, _r], z3.Implies(z3.And(DOMAIN(_p), DOMAIN(_q), DOMAIN(_r)), f))
+                   for n, f in laws(LT, EQ, _p, _q, _r) if n in CORE]
+
+
 class CmpObj(object):
     """a Comparable instance, seen through its contract"""
 
